@@ -103,7 +103,9 @@ class LeadSheet(events_lib.EventSequence):
     return zip(self._melody, self._chords)
 
   def __getitem__(self, i):
-    """Returns the melody-chord tuple at the given index."""
+    """Returns the melody-chord tuple at the given index, or a LeadSheet slice."""
+    if isinstance(i, slice):
+      return LeadSheet(self._melody[i], self._chords[i])
     return self._melody[i], self._chords[i]
 
   def __getslice__(self, i, j):
